@@ -14,6 +14,7 @@ import (
 	"os"
 	"regexp"
 	"sort"
+	"strconv"
 	"strings"
 )
 
@@ -56,6 +57,7 @@ type Contract struct {
 
 	// parsed header
 	RecvName, RecvType string
+	Closure            int // >0: the contract is about the N-th function literal of FuncName
 	Params             []Param
 	Results            []Param
 	QualName           string // for externs on package functions: "strings.TrimPrefix"
@@ -251,6 +253,12 @@ func (c *Contract) parseHeader() error {
 	fd := f.Decls[0].(*ast.FuncDecl)
 	text := func(n ast.Node) string { return src[fset.Position(n.Pos()).Offset:fset.Position(n.End()).Offset] }
 	c.FuncName = fd.Name.Name
+	if m := closureRe.FindStringSubmatch(c.FuncName); m != nil {
+		// F__closureN: the N-th function literal (source order) directly inside F; a
+		// receiver in the header names the captured receiver of the enclosing method
+		c.FuncName = m[1]
+		c.Closure, _ = strconv.Atoi(m[2])
+	}
 	if fd.Type.TypeParams != nil {
 		c.TypeParams = "[" + src[fset.Position(fd.Type.TypeParams.Opening).Offset+1:fset.Position(fd.Type.TypeParams.Closing).Offset] + "]"
 	}
@@ -302,9 +310,14 @@ func (c *Contract) parseHeader() error {
 	default:
 		c.Key = c.FuncName
 	}
+	if c.Closure > 0 {
+		c.Key += fmt.Sprintf("$%d", c.Closure)
+	}
 	c.ID = sanitize(c.Key)
 	return nil
 }
+
+var closureRe = regexp.MustCompile(`^(\w+)__closure([1-9])$`)
 
 func (l *Lemma) parseHeader() error {
 	src := "package p\nfunc " + l.Header + " {}"
